@@ -81,6 +81,23 @@ def _check(mido, type_, attrs, t, thorough):
                     type(x) is not int for x in m2.data):
                 return (f'roundtrip-type/{type_}/{name}',
                         f'{name} of {exp}: data = {m2.data!r}')
+    # what bytes()/bin() return belongs to the caller: scribbling on it must
+    # not change any later encoding (history: encode, mutate result, encode)
+    b_copy = list(b)
+    b.append(0x55)
+    b[0] = 0
+    bn.append(1)
+    again = m.bytes()
+    if again != exp or m.bin() != bytearray(exp) or len(m) != len(exp):
+        return (f'encoding-aliased/{type_}',
+                f'after mutating the list returned by bytes(), {m!r}.bytes() '
+                f'= {again!r}, reference {exp}')
+    m4 = Message(type_, **attrs)
+    if m4.bytes() != exp:
+        return (f'encoding-aliased/{type_}',
+                f'after mutating a returned list, a fresh {m4!r}.bytes() = '
+                f'{m4.bytes()!r}')
+    b = b_copy
     # default time
     m3 = Message.from_bytes(b)
     if m3.time != 0 or vars(m3) != dict(mv, time=0):
